@@ -1,8 +1,9 @@
 import Gv.Oracle.Cli
 import Gv.Oracle.Det
 import Gv.Oracle.Bag
+import Gv.Oracle.Regex
 import Gv.Oracle.Loop
 /-! oracle of property C01: only the handlers it needs -/
 open Gv Gv.Oracle
 
-def main : IO Unit := runOracle [BagOps.handle, DetOps.handle, CliOps.handle]
+def main : IO Unit := runOracle [RegexOps.handle, BagOps.handle, DetOps.handle, CliOps.handle]
